@@ -168,7 +168,7 @@ def getBH_level2(
     for the computation are restored also when the computation fails.
     """
     # pylint: disable=protected-access
-    tiled = []  # (object, original path length) of objects with temporarily tiled paths
+    tiled = []  # (object, original position, original orientation) of temporarily tiled objects
     try:
         return _getBH_level2(
             sources,
@@ -183,9 +183,11 @@ def getBH_level2(
             **kwargs,
         )
     finally:
-        for obj, m0 in tiled:
-            obj._position = obj._position[:m0]
-            obj._orientation = obj._orientation[:m0]
+        # put the original arrays back (slicing the tiled ones would keep the quaternions
+        # that Rotation.from_quat re-normalised, which can differ in the last bits)
+        for obj, pos0, ori0 in tiled:
+            obj._position = pos0
+            obj._orientation = ori0
 
 
 def _getBH_level2(
@@ -318,7 +320,7 @@ def _getBH_level2(
     mask_reset = [max_path_len != pl for pl in path_lengths]
     reset_obj = [obj for obj, mask in zip(obj_list, mask_reset) if mask]
     reset_obj_m0 = [pl for pl, mask in zip(path_lengths, mask_reset) if mask]
-    tiled.extend(zip(reset_obj, reset_obj_m0))
+    tiled.extend((obj, obj._position, obj._orientation) for obj in reset_obj)
 
     if max_path_len > 1:
         for obj, m0 in zip(reset_obj, reset_obj_m0):
